@@ -192,6 +192,10 @@ class BitStringPayloadDecoder(AbstractSimplePayloadDecoder):
                 if isinstance(chunk, SubstrateUnderrunError):
                     yield chunk
 
+            if trailingBits and not chunk:
+                raise error.PyAsn1Error(
+                    'Trailing bits in empty BIT STRING')
+
             value = self.protoComponent.fromOctetString(
                 chunk, internalFormat=True, padding=trailingBits)
 
@@ -228,6 +232,10 @@ class BitStringPayloadDecoder(AbstractSimplePayloadDecoder):
                 raise error.PyAsn1Error(
                     'Trailing bits overflow %s' % trailingBits
                 )
+
+            if trailingBits and len(component) < 2:
+                raise error.PyAsn1Error(
+                    'Trailing bits in empty BIT STRING fragment')
 
             bitString = self.protoComponent.fromOctetString(
                 component[1:], internalFormat=True,
@@ -277,6 +285,10 @@ class BitStringPayloadDecoder(AbstractSimplePayloadDecoder):
                 raise error.PyAsn1Error(
                     'Trailing bits overflow %s' % trailingBits
                 )
+
+            if trailingBits and len(component) < 2:
+                raise error.PyAsn1Error(
+                    'Trailing bits in empty BIT STRING fragment')
 
             bitString = self.protoComponent.fromOctetString(
                 component[1:], internalFormat=True,
